@@ -605,4 +605,159 @@ Section Crash.
     - intros h' r Hlt. rewrite (sf_above _ _ _ _ _ SF) by exact Hlt. apply Bem. exact Hlt.
     - eapply obs_eq_trans; [exact Bre|exact Ho].
   Qed.
+  Lemma BI_logged : forall s w n effs i s' n' e rest,
+    BI (mkD s w n) effs ->
+    sm_step E s n i = (s', n', wal_of e :: rest) ->
+    step_facts E s i s' (wal_of e :: rest) -> all_vis rest ->
+    input_of_entry e = i -> ht e = s_h s ->
+    CInv E h0 (mkD s' (fst (fst (exec false w (wal_of e :: rest)))) n')
+         (effs ++ snd (fst (exec false w (wal_of e :: rest)))) ->
+    BI (mkD s' (fst (fst (exec false w (wal_of e :: rest)))) n')
+       (effs ++ snd (fst (exec false w (wal_of e :: rest)))).
+  Proof.
+    intros s w n effs i s' n' e rest B Hst SF AV Hi He CI.
+    destruct (BI_height _ _ B) as [Hres Hpos]. cbn [d_sm] in Hres, Hpos.
+    destruct B as [Bwf Bnv Bci Blow Bso Bem Bre Bco Bvh Bwal Brec Bpr Bnp Bcr]. cbn [d_sm d_wal] in *.
+    set (Hs := s_h s) in *. set (dur := w_durable w) in *. set (pend := w_pending w) in *.
+    set (D1 := (dur ++ pend) ++ [REntry e]).
+    assert (Col : col (wal_of e :: rest) = true) by apply (sf_col _ _ _ _ _ SF).
+    assert (Crest : col rest = true) by (eapply col_tail; exact Col).
+    (* the append is not dropped *)
+    assert (PBd : prunes_below Hs dur).
+    { unfold prunes_below in *. apply Forall_app in Bpr. apply Bpr. }
+    assert (Wa : wal_append e w = mkWal dur (pend ++ [REntry e])).
+    { unfold wal_append. fold dur pend. pose proof (pruned_below Hs dur Hpos PBd).
+      fold ht. destruct (ht e <=? pruned_upto dur) eqn:El; [lia|reflexivity]. }
+    rewrite exec_logged, Wa in *. cbn [fst snd] in *.
+    (* facts for the induction over the remaining actions *)
+    assert (PB1 : prunes_below Hs D1).
+    { unfold prunes_below, D1. apply Forall_app. split; [exact Bpr|]. constructor; [exact I|constructor]. }
+    assert (Rn : rents D1 = apps effs ++ [e]) by (unfold D1; rewrite rents_app, Brec; reflexivity).
+    assert (So1 : hsorted (apps effs ++ [e])).
+    { apply hsorted_app. split; [exact Bso|]. split; [simpl; auto|].
+      intros x y Hx [<-|[]]. rewrite Forall_forall in Blow. rewrite He. apply Blow. exact Hx. }
+    destruct (rep_next s n i effs e Bre He Hi) as [RN1 RN2]. rewrite Hst in RN1, RN2. cbn [fst snd] in RN1, RN2.
+    assert (VH : forall k v, In v (votes_in k effs) \/ In v (votes_of k rest) -> v_h v <= Hs).
+    { intros k v [X|X]; [apply (Bvh k v X)|].
+      rewrite <- (votes_wal_of k e rest) in X. rewrite (sf_votes _ _ _ _ _ SF k v X). unfold Hs. lia. }
+    assert (Cov1 : forall n2 k v, (In v (votes_in k effs) /\ Hs <= v_h v) \/ In v (votes_of k rest) ->
+              In v (votes_in k (flat (snd (recover E Hs D1 n2))))).
+    { intros n2 k v X. rewrite (recover_votes Hs D1 n2 k Hpos PB1) by (rewrite Rn; exact So1).
+      rewrite Rn. apply RN2. destruct X as [[X1 X2]|X]; [left; apply Bco; assumption|right].
+      rewrite votes_wal_of. exact X. }
+    assert (CH : forall p, In (ACommit p) rest -> p_h p = Hs).
+    { intros p X. apply (sf_commit _ _ _ _ _ SF p). right. exact X. }
+    assert (M0 : Mid effs Hs D1 rest (mkWal dur (pend ++ [REntry e])) (effs ++ [Append e])).
+    { constructor.
+      - apply (CrashCov_ext effs).
+        + rewrite disk_snoc, <- Bwal. cbn [apply_effect]. rewrite Wa. unfold disk. rewrite <- Bwal. reflexivity.
+        + rewrite resume_height_app. reflexivity.
+        + intros k v X. rewrite votes_in_app in X. destruct k; simpl in X; rewrite app_nil_r in X; exact X.
+        + specialize (Bcr (length effs)). rewrite firstn_all in Bcr. exact Bcr.
+      - rewrite apply_effects_app, <- Bwal. cbn [apply_effects fold_left apply_effect]. symmetry. exact Wa.
+      - rewrite resume_height_app. cbn [resume_height commits_in flat_map fold_left]. symmetry. exact Hres.
+      - intros k v X. left. rewrite votes_in_app in X. destruct k; simpl in X; rewrite app_nil_r in X; exact X.
+      - cbn [w_durable w_pending]. unfold D1. rewrite app_assoc. reflexivity.
+      - cbn [w_pending]. unfold no_prune in *. apply Forall_app. split; [exact Bnp|]. constructor; [exact I|constructor]. }
+    destruct (exec_mid effs Hs D1 rest Hpos VH Cov1 CH PB1 rest _ _ AV Crest (fun a H => H) M0) as [X1 [X2 [X3 X4]]].
+    pose proof (exec_vis_apps rest (mkWal dur (pend ++ [REntry e])) AV) as NoApp.
+    pose proof (exec_votes_eq Prevote false rest (mkWal dur (pend ++ [REntry e])) Crest) as Vpv.
+    pose proof (exec_votes_eq Precommit false rest (mkWal dur (pend ++ [REntry e])) Crest) as Vpc.
+    pose proof (exec_wal false rest (mkWal dur (pend ++ [REntry e]))) as Wf.
+    destruct (exec false (mkWal dur (pend ++ [REntry e])) rest) as [[wf more] com]. cbn [fst snd] in *.
+    (* the new effect list *)
+    assert (EA : effs ++ Append e :: more = (effs ++ [Append e]) ++ more) by (rewrite <- app_assoc; reflexivity).
+    assert (Ap : apps (effs ++ Append e :: more) = apps effs ++ [e]).
+    { rewrite EA, !apps_app, NoApp, app_nil_r. reflexivity. }
+    assert (Vin : forall k v, In v (votes_in k (effs ++ Append e :: more)) ->
+                   In v (votes_in k effs) \/ In v (votes_of k rest)).
+    { intros k v X. rewrite EA in X. apply (X2 k v X). }
+    assert (Hnew : s_h s' = resume_height h0 (effs ++ Append e :: more)).
+    { destruct CI as [_ [C H]]. cbn [d_sm] in H. rewrite (resume_height_count _ h0 C). exact H. }
+    assert (Crash' : forall j, CrashCov (firstn j (effs ++ Append e :: more))).
+    { apply crash_prefixes; [exact Bcr|]. intros [|j]; [rewrite app_nil_r; specialize (Bcr (length effs)); rewrite firstn_all in Bcr; exact Bcr|].
+      cbn [firstn]. change (effs ++ Append e :: firstn j more) with (effs ++ [Append e] ++ firstn j more).
+      rewrite app_assoc. apply X1. }
+    assert (Wal' : wf = apply_effects wal_empty (effs ++ Append e :: more)).
+    { rewrite Wf, EA, apply_effects_app. f_equal. apply (m_wal _ _ _ _ _ _ M0). }
+    destruct com.
+    - (* the call committed: the next height starts from a clean slate *)
+      destruct (X4 eq_refl) as [Y1 Y2]. rewrite <- EA in Y2.
+      assert (Eh : s_h s' = Hs + 1) by (rewrite Hnew; exact Y2).
+      assert (Hc : has_commit (wal_of e :: rest) = true).
+      { destruct (has_commit (wal_of e :: rest)) eqn:Hc; [reflexivity|]. apply has_commit_hs in Hc.
+        pose proof (sf_h _ _ _ _ _ SF) as Z. rewrite Hc in Z. simpl in Z. fold Hs in Z. lia. }
+      assert (Below : Forall (fun x => ht x < Hs + 1) (apps effs ++ [e])).
+      { apply Forall_app. split; [eapply Forall_impl; [|exact Blow]; intros x Hx; simpl in Hx; lia|].
+        constructor; [lia|constructor]. }
+      constructor; cbn [d_sm d_wal]; rewrite ?Eh, ?Ap.
+      + apply (sf_wf _ _ _ _ _ SF).
+      + apply (sf_nval _ _ _ _ _ SF).
+      + exact CI.
+      + eapply Forall_impl; [|exact Below]. intros x Hx. simpl in Hx. lia.
+      + exact So1.
+      + intros h' r Hlt. rewrite (sf_above _ _ _ _ _ SF) by (fold Hs; lia). apply Bem. lia.
+      + unfold rep. rewrite (above_f_none _ _ Below). cbn [sm_replay_acts fst].
+        split.
+        * rewrite (sf_reset _ _ _ _ _ SF Hc), Eh. reflexivity.
+        * split; [cbn [init_state s_vc vc_new vc_h]; rewrite (sf_wf _ _ _ _ _ SF); exact (eq_sym Eh)|].
+          intros h' r Hh'. cbn [init_state s_vc vc_new vc_h] in Hh'. cbn [init_state s_vc]. rewrite vc_new_cell.
+          rewrite (sf_above _ _ _ _ _ SF) by (fold Hs; lia). symmetry. apply Bem. lia.
+      + intros k v X Hh. pose proof (VH k v (Vin k v X)). lia.
+      + intros k v X. pose proof (VH k v (Vin k v X)). lia.
+      + exact Wal'.
+      + rewrite Y1. cbn [w_durable w_pending]. rewrite app_nil_r, rents_app, Rn. simpl. apply app_nil_r.
+      + rewrite Y1. cbn [w_durable w_pending]. rewrite app_nil_r. unfold prunes_below. apply Forall_app. split.
+        * apply (prunes_below_mono Hs); [lia|exact PB1].
+        * constructor; [lia|constructor].
+      + rewrite Y1. constructor.
+      + exact Crash'.
+    - (* no commit: same height, one more entry replayed *)
+      destruct (X3 eq_refl) as [Y1 [Y2 Y3]]. rewrite <- EA in Y3.
+      assert (Eh : s_h s' = Hs) by (rewrite Hnew; exact Y3).
+      constructor; cbn [d_sm d_wal]; rewrite ?Eh, ?Ap.
+      + apply (sf_wf _ _ _ _ _ SF).
+      + apply (sf_nval _ _ _ _ _ SF).
+      + exact CI.
+      + apply Forall_app. split; [exact Blow|]. constructor; [lia|constructor].
+      + exact So1.
+      + intros h' r Hlt. rewrite (sf_above _ _ _ _ _ SF) by exact Hlt. apply Bem. exact Hlt.
+      + exact RN1.
+      + intros k v X Hh. apply RN2. destruct (Vin k v X) as [Z|Z]; [left; apply Bco; assumption|right].
+        rewrite votes_wal_of. exact Z.
+      + intros k v X. apply (VH k v (Vin k v X)).
+      + exact Wal'.
+      + rewrite Y1. exact Rn.
+      + rewrite Y1. exact PB1.
+      + exact Y2.
+      + exact Crash'.
+  Qed.
+  Lemma BI_step : forall d i effs, BI d effs -> good_step E d i = true ->
+    BI (fst (fst (dstep E false d i))) (effs ++ snd (fst (dstep E false d i))).
+  Proof.
+    intros [s w n] i effs B G.
+    assert (Hok : ok_input s i = true).
+    { unfold good_step, good_body in G. cbn [d_sm d_calls] in G. apply andb_prop in G. apply G. }
+    pose proof (CInv_step E h0 false (mkD s w n) i effs (b_cinv _ _ B) Hok) as CI.
+    destruct (b_cinv _ _ B) as [[m R] _]. cbn [d_sm] in R.
+    pose proof (sm_step_facts E s w n i m R (b_wf _ _ B) (b_nv _ _ B) G) as SF.
+    revert CI. rewrite dstep_spec. unfold sm_of. cbn [d_sm d_calls d_wal fst snd].
+    destruct (sm_step E s n i) as [[s' n'] acts] eqn:Hst. cbn [fst snd] in *. intro CI.
+    destruct (sf_shape _ _ _ _ _ SF) as [Ea Ho|e rest Ea AV Hi].
+    - subst acts. cbn [exec fst snd] in *. rewrite app_nil_r in *. eapply BI_quiet; eassumption.
+    - subst acts.
+      assert (Hie : input_of_entry e = i /\ ht e = s_h s).
+      { destruct i as [r|p|v|v|k h r]; try exact Hi.
+        destruct (sf_start _ _ _ _ _ SF) as [Hc Hi0]. subst e. split; [symmetry; exact Hi0|].
+        apply has_commit_hs in Hc. pose proof (sf_h _ _ _ _ _ SF) as Z. rewrite Hc in Z. simpl in Z.
+        unfold ht. simpl. lia. }
+      destruct Hie as [Hi1 Hi2]. eapply BI_logged; eassumption.
+  Qed.
+
+  (* the invariant holds at the end of every plain life *)
+  Lemma BI_run : forall ins, good_run E h0 ins = true ->
+    BI (fst (lifetime E h0 [] 0 ins)) (flat (snd (lifetime E h0 [] 0 ins))).
+  Proof.
+    intros ins G. apply (run_PG E BI); [intros; apply BI_step; assumption|exact G|apply BI_init].
+  Qed.
 End Crash.
